@@ -86,7 +86,10 @@ class IntrospectRemoteSchema(Contract):
         out = []
         for oc, status, kind, body in [(0, 200, 0, good), (0, 500, 0, good), (0, 200, 1, None), (0, 200, 2, None), (0, 200, 0, []),
                                        (0, 200, 0, {}), (0, 200, 0, {"data": {}, "errors": [{"message": "x"}]}), (0, 200, 0, {"data": None}),
-                                       (0, 200, 0, {"data": []}), (1, 200, 0, good), (2, 200, 0, good), (0, 301, 0, good)]:
+                                       (0, 200, 0, {"data": []}), (1, 200, 0, good), (2, 200, 0, good), (0, 301, 0, good),
+                                       # errors next to (partial) data are errors all the same: no schema is built from such an answer
+                                       (0, 200, 0, {"data": {"__schema": {}}, "errors": [{"message": "field stripped"}]}),
+                                       (0, 200, 0, {"errors": [{"message": "x"}], "data": {"__schema": {"types": []}}})]:
             out.append(dict(post_outcome=oc, response=H._build_response(status, kind, body), url="http://x/graphql",
                             headers={"Authorization": "t"}, verify_ssl=False))
         return out
